@@ -43,7 +43,7 @@ class IlaSpec(Spec):
         self.w, self.depth, self.p = cfg["width"], cfg["depth"], cfg["pretrigger"]
         self._acts = [(v, t) for v in range(1 << self.w) for t in (0, 1)]
         self.limit = self.depth + self.p + 4
-        self.time_budget = 150 if tier == "quick" else 850      # safety net only; sized to finish in seconds
+        self.time_budget = 600 if tier == "quick" else 3000     # safety net only; sized to finish in seconds
         self.max_states = 400_000 if tier == "quick" else 3_000_000
 
     def build(self):
